@@ -787,6 +787,14 @@ def run(tier, seed):
     bad = C.coq_eval_cases("C02", "run", IMPORTS, "rcase", "chk", terms, shard=400, timeout=1200, extra_defs=extra)
     for i in bad[:20]:
         chk.disagree("run_tag model != implementation (args / kwargs / flags / exception class)", cases[i])
+    # the AST itself: parse_tag model == implementation (normalized, TagAttr tree, serialize) for every text of this run
+    import c12
+    texts = sorted({c["parse_text"] for c in cases} | {c["parse_text"] for c in scases})
+    aterms = [c12.parse_case_term(c12.impl_parse(t)) for t in texts]
+    abad = C.coq_eval_cases("C02", "ast", U.IMPORTS, "str * outcome", "check_parse", aterms, shard=800, timeout=1200)
+    for i in abad[:20]:
+        chk.disagree("parse_tag model AST != implementation AST", {"kind": "ast", "parse_text": texts[i]})
+    chk.extra["ast_cases"] = len(aterms)
     extra_s = "Definition kws : list str := %s.\nDefinition chk (c : scase) : bool := check_s kws c.\n" % kw
     sbad = C.coq_eval_cases("C02", "spec", IMPORTS_S, "scase", "chk", sterms, shard=300, timeout=1200, extra_defs=extra_s)
     for i in sbad[:20]:
